@@ -173,9 +173,13 @@ class Narrower:
             cur = env.get(var)
             if isinstance(cur, IterOf):
                 cur = None
+            if getattr(self, "_unroll_var", None) == var and cur is not None:
+                self._unroll_tests += 1
+                if any(c is t or c in t.mro or t in c.mro for c in classes for t in cur):
+                    self._unroll_hits += 1
             for c in classes:
                 self.tested.append(c)
-                if cur is not None:
+                if cur is not None and getattr(self, "_unroll_var", None) != var:
                     possible = any(c is t or c in t.mro or t in c.mro for t in cur)
                     self.rep.check(self.rule, f"{self.label}:isinstance({var},{c.name})", possible,
                                    f"this arm can never match: {var} can only be one of {sorted(x.name for x in cur)} here (the class is not a list member type of {self.recv.name}, or an earlier arm already took it)" if not possible else "",
@@ -248,6 +252,29 @@ class Narrower:
             inner = dict(env)
             if isinstance(st.target, ast.Name):
                 inner[st.target.id] = self.elements(it)
+            if isinstance(st.iter, (ast.Tuple, ast.List)) and isinstance(st.target, ast.Name) and st.iter.elts:
+                # a loop over an explicit tuple of values: look at each element on its own - an element whose type fails
+                # every isinstance test the body applies to it can never be selected
+                etypes = [self.type_of(e, env) for e in st.iter.elts]
+                if all(isinstance(t, frozenset) and t for t in etypes):
+                    for e, t in zip(st.iter.elts, etypes):
+                        self._unroll_var, self._unroll_tests, self._unroll_hits = st.target.id, 0, 0
+                        one = dict(env)
+                        one[st.target.id] = t
+                        saved = (len(self.rep.obligations), list(self.returned), self.reads, self.unresolved)
+                        try:
+                            self.block(st.body, one)
+                        finally:
+                            tests, hits = self._unroll_tests, self._unroll_hits
+                            self._unroll_var = None
+                            del self.rep.obligations[saved[0]:]
+                            self.returned, self.reads, self.unresolved = saved[1], saved[2], saved[3]
+                        if tests and not hits:
+                            self.rep.check(self.rule, f"{self.label}:{text(e)}:selectable", False,
+                                           f"{text(e)} (a {'/'.join(sorted(x.name for x in t))}) fails every isinstance test the loop applies to it: this alternative can never be chosen, the shortcut ignores it", self.where(e))
+                        else:
+                            self.rep.check(self.rule, f"{self.label}:{text(e)}:selectable", True, "", self.where(e))
+                    inner[st.target.id] = frozenset().union(*etypes)
             out = self.block(st.body, inner)
             out = self.merge(env, out)
             return self.block(st.orelse, out)
@@ -299,6 +326,14 @@ def is_property(fn: ast.FunctionDef) -> bool:
     return any(isinstance(d, ast.Name) and d.id == "property" for d in fn.decorator_list)
 
 
+def _self_only_helper(fn: ast.FunctionDef) -> bool:
+    """a plain method taking only self (the helpers shortcut properties are factored into)"""
+    a = fn.args
+    if fn.decorator_list or a.vararg or a.kwarg or a.kwonlyargs or len(a.args) != 1 or a.args[0].arg != "self":
+        return False
+    return not (fn.name.startswith("__") and fn.name.endswith("__"))
+
+
 def properties_of(schema: Schema, ci: ClassInfo):
     """(definer, fn) for each @property visible on ci, defined by a repo class other than the two bases"""
     seen = set()
@@ -307,7 +342,7 @@ def properties_of(schema: Schema, ci: ClassInfo):
         if c is schema.aggregate or c is schema.elementlist:
             continue
         for name, (kind, node) in c.attrs.items():
-            if kind == "func" and is_property(node) and name not in seen:
+            if kind == "func" and name not in seen and (is_property(node) or _self_only_helper(node)):
                 seen.add(name)
                 out.append((c, node))
     return out
@@ -419,6 +454,14 @@ def a_r2_r3_properties(schema: Schema, rep: Report):
                         rep.check("A-R3", f"{cname}.{fn.name}->self.{first}:wrapped", ok, f"{cname}.{fn.name} returns self.{first}; the wrapper's own sub-aggregate is {[c.name for c in own]}" if not ok else "", lc)
                     if fn.name in ("org", "fid") and len(chain) == 2:
                         rep.check("A-R3", f"{cname}.{fn.name}->self.{'.'.join(chain)}:same-name", chain[-1] == fn.name, f"{fn.name} returns .{chain[-1]}", lc)
+            # a sub-aggregate is a list: without list members it is falsy even when it is there.  `return self.<child> or X`
+            # therefore replaces a present (member-less) child by X - the shortcut is no longer the object on the full path
+            for r_ in [x for x in own_nodes(fn) if isinstance(x, ast.Return) and isinstance(x.value, ast.BoolOp) and isinstance(x.value.op, ast.Or)]:
+                first = r_.value.values[0]
+                if isinstance(first, ast.Attribute) and isinstance(first.value, ast.Name) and first.value.id == "self":
+                    ch = schema.spec(ci).get(first.attr)
+                    if ch is not None and ch.kind == "SubAggregate":
+                        rep.check("A-R3", f"{cname}.{fn.name}->self.{first.attr}:returned-as-it-is", False, f"returns `{text(r_.value)}`: a {getattr(ch.target, 'name', 'sub-aggregate')} that is present but holds no list members is falsy (Aggregate subclasses list), so the shortcut returns {text(r_.value.values[-1])} instead of the object on the full path (identity, type and its own fields are lost)", f"{definer.mod.relpath}:{r_.lineno}")
             # like-named final attribute for currency shortcuts
             if fn.name in ("cursym", "currate"):
                 from .flat import flat
